@@ -156,11 +156,16 @@ def suite(outdir, jobs):
             return m["id"], dict(status="apply-failed", out=a.stdout[-300:])
         env = dict(os.environ, CARGO_TARGET_DIR=d + "/target", CARGO_NET_OFFLINE="true")
         t0 = time.time()
+        # own process group, so that a mutant that loops forever can be killed together with its test binaries
+        pr = subprocess.Popen("exec cargo test --workspace --no-fail-fast --offline", shell=True, cwd=d, env=env,
+                              stdout=subprocess.PIPE, stderr=subprocess.STDOUT, text=True, start_new_session=True)
         try:
-            p = subprocess.run("cargo test --workspace --no-fail-fast --offline", shell=True, cwd=d, env=env,
-                               stdout=subprocess.PIPE, stderr=subprocess.STDOUT, text=True, timeout=900)
-            out, rc = p.stdout, p.returncode
+            out, _ = pr.communicate(timeout=300)
+            rc = pr.returncode
         except subprocess.TimeoutExpired:
+            import signal
+            os.killpg(pr.pid, signal.SIGKILL)
+            pr.communicate()
             out, rc = "TIMEOUT", 124
         sh(f"git -C {d} checkout -q -- .")
         if "error[" in out or "error: could not compile" in out:
